@@ -89,13 +89,18 @@ class Check:
             if t['protocol'] == 'tap':
                 t['should_fail'] = False
             tests.append(t)
+        setups: T.List[T.Dict[str, T.Any]] = []
+        if rng.random() < 0.25:
+            setups.append({'name': 'slow', 'tmult': rng.choice([None, 2, 3, 0]), 'exclude_suites': rng.choice([[], ['sa'], ['sb', f'{C.SUB}:xa'], [f'{C.TOP}:sh']]),
+                           'env': rng.choice([[], ['SETUPVAR=1']])})
         nruns = rng.choice([1, 1, 2, 3])
         runs = []
         for r in range(nruns):
-            runs.append(self.gen_run(rng, tests, sw, tick))
-        return {'kind': 'c12', 'tests': tests, 'runs': runs}
+            runs.append(self.gen_run(rng, tests, sw, tick, setups))
+        return {'kind': 'c12', 'tests': tests, 'runs': runs, 'setups': setups}
 
-    def gen_run(self, rng: random.Random, tests: T.List[T.Dict[str, T.Any]], sw: T.Dict[str, float], tick: float) -> T.Dict[str, T.Any]:
+    def gen_run(self, rng: random.Random, tests: T.List[T.Dict[str, T.Any]], sw: T.Dict[str, float], tick: float,
+                setups: T.Sequence[T.Dict[str, T.Any]] = ()) -> T.Dict[str, T.Any]:
         run: T.Dict[str, T.Any] = {
             'j': rng.choice([1, 2, 2, 3, 4, 8, 30]),
             'repeat': rng.choice([1, 1, 1, 2, 3]),
@@ -105,6 +110,12 @@ class Check:
             'verbose': rng.random() < 0.1,
             'errorlogs': rng.random() < 0.15,
         }
+        if setups and rng.random() < 0.6:
+            su = setups[0]
+            run['setup'] = su['name']
+            run['setup_exclude'] = list(su.get('exclude_suites') or [])
+            if run['tmult'] is None and su.get('tmult') is not None:
+                run['setup_tmult'] = su['tmult']
         # selection
         sel_mode = rng.choice(['all', 'all', 'suite', 'nosuite', 'names', 'exclude', 'suite+names'])
         if 'suite' in sel_mode and sel_mode != 'nosuite':
@@ -148,18 +159,22 @@ class Check:
             run['sim']['harness_signals'] = [run.pop('sim_extra_signal')]
         return run
 
+    @staticmethod
+    def tmult(run: T.Dict[str, T.Any]) -> T.Optional[float]:
+        return run['tmult'] if run.get('tmult') is not None else run.get('setup_tmult')
+
     def kill_window(self, rng: random.Random, tests: T.List[T.Dict[str, T.Any]], run: T.Dict[str, T.Any],
                     scripts: T.Dict[str, T.Any]) -> None:
         """Bias: a failure reaches --maxfail (or a signal reaches the harness) while
         another test is inside its timeout kill sequence."""
         sel = [t for t in tests if t['id'] in MR.select(tests, run, C.TOP) and t['parallel']]
-        cands = [t for t in sel if MR.effective_timeout(t['timeout'], run['tmult']) is not None]
+        cands = [t for t in sel if MR.effective_timeout(t['timeout'], self.tmult(run)) is not None]
         if not cands or len(sel) < 2 or run['j'] < 2 or run.get('slice'):
             return
         a = rng.choice(cands)
         b = rng.choice([t for t in sel if t is not a])
-        teff = MR.effective_timeout(a['timeout'], run['tmult'])
-        bteff = MR.effective_timeout(b['timeout'], run['tmult'])
+        teff = MR.effective_timeout(a['timeout'], self.tmult(run))
+        bteff = MR.effective_timeout(b['timeout'], self.tmult(run))
         when = round(teff + rng.choice([0.0, 0.1, 0.3, 0.6, 1.2]), 3)
         if bteff is not None and when > bteff - BAND:
             return
@@ -182,7 +197,7 @@ class Check:
 
     def gen_script(self, rng: random.Random, t: T.Dict[str, T.Any], run: T.Dict[str, T.Any],
                    sw: T.Dict[str, float], tick: float) -> T.Dict[str, T.Any]:
-        teff = MR.effective_timeout(t['timeout'], run['tmult'])
+        teff = MR.effective_timeout(t['timeout'], self.tmult(run))
         want_timeout = teff is not None and rng.random() < sw['timeout_p']
         if rng.random() < sw['zero_p']:
             dur = 0.0
@@ -278,7 +293,7 @@ class Check:
     def _run(self, sc: T.Dict[str, T.Any], root: str) -> T.Dict[str, T.Any]:
         tests = sc['tests']
         byid = {t['id']: t for t in tests}
-        sd, bd = C.write_project(root, tests)
+        sd, bd = C.write_project(root, tests, sc.get('setups') or [])
         r = C.setup(root, sd, bd)
         if not r['ok'] or r['value'] != 0:
             return R.harness_error('setup of generated project failed: ' + (r.get('exc') or r['out'])[-2000:])
@@ -349,7 +364,8 @@ class Check:
             return None
         # ---- the simulated run
         argv = C.run_args(bd, run)
-        rr = C.sim_run(root, bd, argv, run['sim'], run['scripts'], f'{ri}')
+        logbase = 'testlog' + (f"-{C.TOP}_{run['setup']}" if run.get('setup') else '')   # meson names the log files after the setup
+        rr = C.sim_run(root, bd, argv, run['sim'], run['scripts'], f'{ri}', logbase=logbase)
         if not rr['ok']:
             if rr['exc_in_sut']:
                 return R.violation('sut-exception', 'meson test raised: ' + rr['exc'][-2500:], 'sut-exception:' + str(rr['exc_type']))
@@ -437,7 +453,7 @@ class Check:
                 return R.violation('not-logged', f'test {p.tid} iteration {p.it} ran but has no testlog.json entry', 'not-logged', trace=trace)
             got = ent['result']
             labels.append(got)
-            teff = MR.effective_timeout(t['timeout'], run.get('tmult'))
+            teff = MR.effective_timeout(t['timeout'], self.tmult(run))
             if p.exit_t is None:
                 return R.violation('result-before-death', f'test {p.tid} was reported {got} but its process never exited', 'result-before-death', trace=trace)
             log_end = ent['starttime'] + ent['duration'] - 1_000_000.0
@@ -548,6 +564,11 @@ class Check:
                 yield c
         # simpler run options
         for ri, r in enumerate(sc['runs']):
+            if r.get('setup'):
+                c = copy.deepcopy(sc)
+                for k_ in ('setup', 'setup_exclude', 'setup_tmult'):
+                    c['runs'][ri].pop(k_, None)
+                yield c
             for key, simple in (('slice', None), ('names', None), ('suites', None), ('nosuites', None), ('exclude', None),
                                 ('repeat', 1), ('maxfail', 0), ('tmult', None), ('nosplit', False), ('verbose', False), ('errorlogs', False)):
                 if r.get(key) not in (None, simple, [], False):
